@@ -271,7 +271,32 @@ def _shard_d(d, b):
 
 UNTRACE = [('kernpy.core.tokens', 'TokenCategoryHierarchyMapper.valid'), ('kernpy.core.exporter', 'Exporter.export_string')]
 
+# ------------------------------------------------------------------ C04.f first call of an interpreter, then the observed exports
+FRESH_REQ = [{e: {'encoding': e} for e in ('normalizedKern', 'eKern', 'bKern', 'bEkern')}, {e: {'encoding': e, 'exclude': ['DYNAMICS']} for e in ('normalizedKern', 'eKern', 'bKern', 'bEkern')}]
+
+
+def ob_f(pre: int, d: int) -> bool:
+    from sv.ref import fresh
+    assume(0 <= pre < len(fresh.PRELUDES) and 0 <= d < 2)
+    return _f_body(choose(pre, len(fresh.PRELUDES)), choose(d, 2))
+
+
+@native
+def _f_body(pre, d):
+    from sv.ref import fresh, docs as _docs
+    P = _docs.pool()
+    D, other = (P[0], P[1]) if d == 0 else (P[1], P[0])
+    bad = fresh.mismatches(pre, D, other.text(), FRESH_REQ[d])
+    check(not bad, '; '.join(bad)[:1500])
+    return True
+
+
 OBLIGATIONS = [
+    Ob(id='C04.f', fn=ob_f, title='histories from the first call of a fresh interpreter: the kern / ekern / bkern / bekern views stay consistent with the cell model',
+       shard_of=lambda pre, d: pre, shards={'quick': 5, 'thorough': 5}, budget_s={'quick': 150, 'thorough': 600}, native_body=True,
+       witnesses=[{'pre': 0, 'd': 0}], min_confirmed=15, enumerated='first call (10 kinds, incl. none), document (2)',
+       realized_at=['fresh python interpreter per history (subprocess)'],
+       bounds={'quick': '10 first calls x 2 pool documents (kern + text with chord / decorations / accidentals; kern + dynam + harm)', 'thorough': 'same'}),
     Ob(id='C04.e', fn=ob_e, title='header line and plain/extended relation under measure ranges and spine selection, six encodings',
        shard_of=lambda d, a, b, ids: a + 4 * b, shards={'quick': 4, 'thorough': 4}, budget_s={'quick': 120, 'thorough': 600},
        witnesses=[{'d': 0, 'a': 2, 'b': 2, 'ids': 0}], min_confirmed=60, enumerated='document (2), from_measure 0..3 (0 = omitted), to_measure 0..3, spine-type selection (3)',
